@@ -42,9 +42,7 @@ Fixpoint has_ptrkeys (n : node) (v : val) {struct n} : bool :=
   end.
 
 (* The verdict of the generated DeepEqual(source, copy) for a faithful copy, in emission order:
-   "1"; "0" at the first non-empty pointer-key map; "P" (panic) at the first struct field of
-   pointer-to-scalar type that is nil - writeNodeDEQ tests the nil-ness of the ENCLOSING struct
-   pointers there and then dereferences the field (a defect of the DeepEqual emitter, C05). *)
+   "1", or "0" at the first non-empty pointer-key map (keys are looked up by identity). *)
 Definition first_bad (a b : string) : string := if String.eqb a "1" then b else a.
 
 Fixpoint deq3 (n : node) (v : val) {struct n} : string :=
@@ -57,11 +55,7 @@ Fixpoint deq3 (n : node) (v : val) {struct n} : string :=
         | VStruct fs => (fix go (cs : list node) (fs : list val) : string :=
                            match cs, fs with
                            | c :: cr, f :: fr =>
-                             let here := match n_typ c, n_ptr c, f with
-                                         | typeBasic, true, VPtr None => "P"
-                                         | _, _, _ => deq3 c f
-                                         end in
-                             first_bad here (go cr fr)
+                             first_bad (deq3 c f) (go cr fr)
                            | _, _ => "1"
                            end) chld fs
         | _ => "1"
@@ -99,8 +93,8 @@ Definition judged (c : string) (deq : string) : string :=
 Definition model_copy (mode : string) (n : node) (form : string) (v : val) : string :=
   match copy_method n (arg_of_form form v) with
   | Ret (Some c) None =>
-    if String.eqb mode "raw" then "e=nil;d=" ++ dumpb c
-    else judged (dumpc false c) (deq3 n v)
+    if String.eqb mode "raw" then "e=nil;d=" ++ dumpb n c
+    else judged (dumpc false n c) (deq3 n v)
   | Ret _ e => "e=" ++ pr_err e
   | Panic k => "PANIC:" ++ pr_pkind k
   | Fall _ => "?"
@@ -109,8 +103,8 @@ Definition model_copy (mode : string) (n : node) (form : string) (v : val) : str
 Definition model_copyto (mode : string) (n : node) (form : string) (d v : val) : string :=
   match copyto_method n (arg_of_form form v) (APtr (Some d)) with
   | Ret (Some c) None =>
-    if String.eqb mode "raw" then "e=nil;d=" ++ dumpb c ++ ";used=" ++ Z_to_string (count_bytes n v) ++ ";grew=0"
-    else judged (dumpc false c) (deq3 n v)
+    if String.eqb mode "raw" then "e=nil;d=" ++ dumpb n c ++ ";used=" ++ Z_to_string (count_bytes n v) ++ ";grew=0"
+    else judged (dumpc false n c) (deq3 n v)
   | Ret _ e => "e=" ++ pr_err e
   | Panic k => "PANIC:" ++ pr_pkind k
   | Fall _ => "?"
@@ -118,8 +112,8 @@ Definition model_copyto (mode : string) (n : node) (form : string) (d v : val) :
 
 (* the demand: the copy is the source up to nil-versus-empty collections, DeepEqual says so,
    the source is untouched, nothing mutable is shared *)
-Definition spec_copy (mode : string) (v : val) : string :=
-  if String.eqb mode "raw" then "*" else judged (dumpc false v) "1".
+Definition spec_copy (mode : string) (n : node) (v : val) : string :=
+  if String.eqb mode "raw" then "*" else judged (dumpc false n v) "1".
 
 Definition pk_tag (n : node) (v : val) : string := ",deq" ++ deq3 n v ++ (if has_ptrkeys n v then ",ptrkeys" else "").
 
@@ -132,7 +126,7 @@ Definition copy_lines (u : string * ty) : list string :=
         fst u ++ ".k" ++ nat_to_string vi ++ "." ++ form ++ "." ++ mode ++ tab ++
         "copy," ++ mode ++ ",src-" ++ form ++ "," ++ size_tag v ++ pk_tag n v ++ tab ++
         fst u ++ ";" ++ form ++ ";copy;" ++ mode ++ ";" ++ pr_val true v ++ tab ++
-        model_copy mode n form v ++ tab ++ spec_copy mode v) modes) ["v"; "p"])
+        model_copy mode n form v ++ tab ++ spec_copy mode n v) modes) ["v"; "p"])
   (combine (seqn (List.length (variants n))) (variants n)).
 
 Definition copyto_lines (u : string * ty) : list string :=
@@ -152,7 +146,7 @@ Definition copyto_lines (u : string * ty) : list string :=
           fst u ++ ".t" ++ nat_to_string vi ++ "." ++ dname ++ "." ++ cname ++ "." ++ mode ++ tab ++
           "copyto," ++ mode ++ ",dst-" ++ dname ++ ",buf-" ++ cname ++ ",src-" ++ form ++ "," ++ size_tag v ++ pk_tag n v ++ tab ++
           fst u ++ ";" ++ form ++ ";copyto;" ++ mode ++ ";" ++ Z_to_string cap ++ ";" ++ pr_val true d ++ ";" ++ pr_val true v ++ tab ++
-          model_copyto mode n form d v ++ tab ++ spec_copy mode v) modes)
+          model_copyto mode n form d v ++ tab ++ spec_copy mode n v) modes)
       [("nil", (-1)%Z); ("exact", bc); ("over", (bc + 64)%Z)]) dsts)
   (combine (seqn (List.length vs)) vs).
 
